@@ -18,9 +18,9 @@ func init() {
 		Files: []string{"fp.go"},
 		Funcs: []string{"PMap", "pMapPreserveOrder", "pMapNoOrder"},
 		Gen:   genC16,
-		Rule: "lists of length 0..8 (thorough 0..16) with unique elements x option (nil, FixedPool in {-1,0,1,len-1,len,len+3,MaxInt,MaxInt/2,MinInt}) x RandomOrder; f logs begin, sleeps a data-dependent virtual duration " +
+		Rule: "lists of length 0..8 (thorough 0..16) with unique elements (1 in 5: some elements occur twice) x option (nil, FixedPool in {-1,0,1,len-1,len,len+3,MaxInt,MaxInt/2,MinInt}) x RandomOrder; f logs begin, sleeps a data-dependent virtual duration " +
 			"(including 'later elements finish first'), yields, logs end; PMap's producer/worker/closer goroutines are simulated threads; oracles: ordered result == Map, random result is a permutation, " +
-			"f applied exactly once per element and to nothing else, concurrency gauge <= min(FixedPool,len), PMap returns after the last application and within the horizon; " +
+			"f applied exactly once per element and to nothing else (an interface-typed instantiation whose f returns nil for some elements is run once more at the end), concurrency gauge <= min(FixedPool,len), PMap returns after the last application and within the horizon; " +
 			"non-trivial = >=2 applications overlapped; distinct = distinct context-switch signature" +
 			" Flavours: long lists with small pools and cheap f, further PMap calls (empty and non-empty, before and beside the main call) sharing the caller's option object.",
 		Real: []string{"fpgo.PMap (pMapPreserveOrder, pMapNoOrder: producer, workers, closer goroutines, WaitGroup)"},
@@ -39,6 +39,7 @@ type c16Scenario struct {
 	HasOpt    bool            `json:"has_option"`
 	FixedPool int             `json:"fixed_pool"`
 	Random    bool            `json:"random_order"`
+	Dups      bool            `json:"some_elements_twice,omitempty"`
 	Durs      []time.Duration `json:"durations"`
 	NilF      bool            `json:"nil_function"`
 	// further PMap calls made with the SAME option object (a caller-owned value PMap must treat as read-only):
@@ -50,6 +51,7 @@ type c16Scenario struct {
 	begins map[int][]uint64
 	ends   map[int][]uint64
 	op     *Op
+	anyOp  *Op
 	hung   bool
 }
 
@@ -72,6 +74,13 @@ func genC16(t *simrt.Tape, tier string) Scenario {
 	for i := n - 1; i > 0; i-- {
 		j := t.Choose(i + 1)
 		sc.List[i], sc.List[j] = sc.List[j], sc.List[i]
+	}
+	if n >= 2 && t.Bool(1, 5) {
+		// equal elements are elements like any other: f is applied once per position
+		for k := 1 + t.Choose(2); k > 0; k-- {
+			sc.List[t.Choose(n)] = sc.List[t.Choose(n)]
+		}
+		sc.Dups = true
 	}
 	sc.HasOpt = !t.Bool(1, 4)
 	if sc.HasOpt {
@@ -185,6 +194,25 @@ func (sc *c16Scenario) Run(s *simrt.Sim) {
 			sc.hung = true
 		}
 	}
+	if sc.hung || sc.NilF {
+		return
+	}
+	// the result type may be an interface, and f may return nil for some elements: nil is a result like any other
+	s.SetFair(true)
+	th2 := s.Go("caller-any", func() {
+		sc.anyOp = h.Do("caller-any", "PMap[int,interface{}]", nil, func() (interface{}, error) {
+			return fpgo.PMap(func(x int) interface{} {
+				s.Yield()
+				if x%2 == 0 {
+					return nil
+				}
+				return x
+			}, opt, sc.List...), nil
+		})
+	})
+	if !s.WaitUntilTimeout(th2.Done, 20*time.Minute) {
+		sc.hung = true
+	}
 }
 
 func (sc *c16Scenario) Check(res *simrt.Result) []Violation {
@@ -226,6 +254,27 @@ func (sc *c16Scenario) Check(res *simrt.Result) []Violation {
 		return dedupe(vs)
 	}
 	vs = append(vs, sc.checkCall(mode, "", sc.List, sc.Durs, sc.op)...)
+	if sc.anyOp != nil && sc.anyOp.Returned && sc.anyOp.Panic == "" {
+		got, _ := sc.anyOp.Val.([]interface{})
+		var a, b []string
+		for _, x := range sc.List {
+			if x%2 == 0 {
+				b = append(b, "<nil>")
+			} else {
+				b = append(b, fmt.Sprint(x))
+			}
+		}
+		for _, v := range got {
+			a = append(a, fmt.Sprint(v))
+		}
+		if mode != "ordered" {
+			sort.Strings(a)
+			sort.Strings(b)
+		}
+		if fmt.Sprint(a) != fmt.Sprint(b) {
+			add("result", "interface-typed-results-with-nils", fmt.Sprintf("PMap[int, interface{}] with f returning nil for even elements: got %v, want %v (%s) for list %v", a, b, mode, sc.List))
+		}
+	}
 	inMain := map[int]bool{}
 	for _, x := range sc.List {
 		inMain[x] = true
@@ -275,10 +324,21 @@ func (sc *c16Scenario) checkCall(mode, tag string, list []int, durs []time.Durat
 	}
 	var evs []ev
 	var lastEnd uint64
+	mult := map[int]int{}
 	for _, x := range list {
+		mult[x]++
+	}
+	for _, x := range list {
+		if inList[x] {
+			continue // an element value that occurs several times is judged once, against its multiplicity
+		}
 		inList[x] = true
-		if n := len(sc.begins[x]); n != 1 {
-			add("exactly-once", fmt.Sprintf("applied-%d-times", min3(n)), fmt.Sprintf("f applied %d times to element %d; %s", n, x, ctx))
+		if n := len(sc.begins[x]); n != mult[x] {
+			fp := fmt.Sprintf("applied-%d-times", min3(n))
+			if mult[x] > 1 {
+				fp = "element-occurring-several-times-not-applied-once-per-position"
+			}
+			add("exactly-once", fp, fmt.Sprintf("f applied %d times to element %d, which occurs %d times in the list; %s", n, x, mult[x], ctx))
 		}
 		for _, b := range sc.begins[x] {
 			evs = append(evs, ev{b, +1})
